@@ -51,7 +51,8 @@ def info(cls, ref=None):
         elif p.name in getattr(cls, "optionals", {}):
             kind, avp = "opt", cls.optionals[p.name].__name__
         else:
-            continue          # not an AVP parameter
+            # declared, but in neither table: accepts a ready-made DiameterAVP object, placed in declaration order
+            kind, avp = "raw", "RAW_" + p.name
         hasdefault = p.default is not inspect._empty and p.default is not None
         params.append({"name": p.name, "avp": avp, "kind": kind, "hasdefault": hasdefault, "default": p.default})
     base = cls.__name__.replace("Request", "").replace("Answer", "")
@@ -91,7 +92,11 @@ def instantiate(ci, supplied, nextras, byname, rng):
     """returns (outcome, msg or exception, checks, extra_objs)"""
     kwargs, checks = {}, {}
     for p in ci["params"]:
-        if p["name"] in supplied:
+        if p["name"] in supplied and p["kind"] == "raw":
+            o, _s = dictx.make_generic(rng) if rng.random() < 0.5 else dictx.make_avp(byname["ProxyStateAVP"], rng)
+            kwargs[p["name"]] = o
+            checks[p["name"]] = lambda a, o=o: None if a is o else "AVP object passed for a declared argument is not carried"
+        elif p["name"] in supplied:
             arg, chk = value_for(p["avp"], byname, rng)
             kwargs[p["name"]] = arg
             checks[p["name"]] = chk
@@ -168,6 +173,7 @@ def check_built(rep, ci, vec, out, msg, checks, extras, kwargs, replay):
     expn = list(exp["avps"])
     for i, e in enumerate(extras):
         expn[len(expn) - len(extras) + i] = type(e).__name__
+    expn = [type(kwargs[x[4:]]).__name__ if x.startswith("RAW_") and x[4:] in kwargs else x for x in expn]
     if names != expn:
         bad.append(f"AVP classes {names}, specification {expn}")
         return bad
@@ -271,7 +277,9 @@ def run(rep):
         rec = {"key": ci["key"], "supplied": sorted(supplied), "extras": ["X"] * nx, "ok": out == "ok", "clean": out != "err",
                "cmd": msg.header.get_command_code() if out == "ok" else 0,
                "request": msg.header.is_request() if out == "ok" else False,
-               "avps": [("X" if any(a is e for e in extras) else type(a).__name__) for a in msg.avps] if out == "ok" else []}
+               "avps": [("X" if any(a is e for e in extras) else
+                         next(("RAW_" + k for k, v in kwargs.items() if v is a and not k.startswith("extra_avp_")), type(a).__name__))
+                        for a in msg.avps] if out == "ok" else []}
         recs.append(rec)
         meta.append({"kind": "random", "key": ci["key"], "supplied": sorted(supplied), "extras": nx,
                      "outcome": out if out == "ok" else f"{out}: {type(msg).__name__}: {str(msg)[:80]}"})
